@@ -283,46 +283,63 @@ def own_header(chk):
     # _load_halo_field depends on no instance state but self.halo_field_loaders (a memo of resolved loaders kept on the instance survives the
     # per-file rebuild and keeps the first file's closures, i.e. the first file's BoxSize / VelZSpace_to_kms)
     lhf = src.func(CAT, 'CompaSOHaloCatalog._load_halo_field')
-    binds = {}
 
-    def _bind(t, v):
-        for x in ast.walk(t):
-            if isinstance(x, ast.Name):
-                binds.setdefault(x.id, []).append(v)
-            elif isinstance(x, (ast.Subscript, ast.Attribute)) and isinstance(x.ctx, ast.Store):
-                b_ = x
-                while isinstance(b_, (ast.Subscript, ast.Attribute)):
-                    b_ = b_.value
-                if isinstance(b_, ast.Name) and b_.id != 'self':
-                    binds.setdefault(b_.id, []).append(v)       # a store through a local container
-    for n in ast.walk(lhf):
-        if isinstance(n, ast.Assign):
-            for t in n.targets:
-                _bind(t, n.value)
-        elif isinstance(n, (ast.AugAssign, ast.AnnAssign)) and n.value is not None:
-            _bind(n.target, n.value)
-        elif isinstance(n, (ast.For, ast.comprehension)):
-            _bind(n.target, n.iter)
-        elif isinstance(n, ast.NamedExpr):
-            _bind(n.target, n.value)
+    def _binds_of(f_):
+        binds = {}
 
-    def _state(e, seen):
+        def _bind(t, v):
+            for x in ast.walk(t):
+                if isinstance(x, ast.Name):
+                    binds.setdefault(x.id, []).append(v)
+                elif isinstance(x, (ast.Subscript, ast.Attribute)) and isinstance(x.ctx, ast.Store):
+                    b_ = x
+                    while isinstance(b_, (ast.Subscript, ast.Attribute)):
+                        b_ = b_.value
+                    if isinstance(b_, ast.Name) and b_.id != 'self':
+                        binds.setdefault(b_.id, []).append(v)       # a store through a local container
+        for n in ast.walk(f_):
+            if isinstance(n, ast.Assign):
+                for t in n.targets:
+                    _bind(t, n.value)
+            elif isinstance(n, (ast.AugAssign, ast.AnnAssign)) and n.value is not None:
+                _bind(n.target, n.value)
+            elif isinstance(n, (ast.For, ast.comprehension)):
+                _bind(n.target, n.iter)
+            elif isinstance(n, ast.NamedExpr):
+                _bind(n.target, n.value)
+        return binds
+    methods = {}
+    for c_ in src.tree(CAT).body:
+        if isinstance(c_, ast.ClassDef) and c_.name == 'CompaSOHaloCatalog':
+            methods = {m_.name: m_ for m_ in c_.body if isinstance(m_, ast.FunctionDef)}
+
+    def _state(e, seen, binds, depth=0):
         out = set()
         for x in ast.walk(e):
             if isinstance(x, ast.Attribute) and isinstance(x.value, ast.Name) and x.value.id == 'self':
-                out.add(x.attr)
+                m_ = methods.get(x.attr)
+                if m_ is not None and depth < 3 and x.attr not in ('_load_halo_field',):
+                    # a method of the class: what it hands back depends on the instance state its results are computed from
+                    # (and on its arguments, which the walk of the call expression covers)
+                    b2 = _binds_of(m_)
+                    for r_ in ast.walk(m_):
+                        if isinstance(r_, (ast.Return, ast.Yield, ast.YieldFrom)) and r_.value is not None:
+                            out |= _state(r_.value, set(), b2, depth + 1)
+                else:
+                    out.add(x.attr)
             elif isinstance(x, ast.Call) and dotted(x.func) in ('getattr', 'vars', 'hasattr') and x.args and unparse(x.args[0]) == 'self':
                 out.add(x.args[1].value if len(x.args) > 1 and isinstance(x.args[1], ast.Constant) else '__dict__')
             elif isinstance(x, ast.Name) and isinstance(x.ctx, ast.Load) and x.id in binds and x.id not in seen:
                 seen.add(x.id)
                 for v in binds[x.id]:
-                    out |= _state(v, seen)
+                    out |= _state(v, seen, binds, depth)
         return out
+    lbinds = _binds_of(lhf)
     lcalls = [c_ for c_ in ast.walk(lhf) if isinstance(c_, ast.Call) and len(c_.args) == 3 and not c_.keywords and [unparse(a) for a in c_.args[1:]] == ['rawhalos', 'halos']]
     if not lcalls:
         raise AnalysisError('_load_halo_field: loader call not found')
     for c_ in lcalls:
-        st_ = _state(c_.func, set()) - {'halo_field_loaders'}
+        st_ = _state(c_.func, set(), lbinds) - {'halo_field_loaders'}
         # the loaded-field bookkeeping and the warning configuration do not select the loader
         chk.check(not st_, 'C05-R8', CAT, 'CompaSOHaloCatalog._load_halo_field', 'the loader called for a file is taken from the table rebuilt for that file (self.halo_field_loaders only)',
                   unparse(c_.func)[:60],
